@@ -18,7 +18,7 @@ PROP = dict(
           "after the first result, and >=2 expressions. Key pools include a file key containing a slash (cpu/model) and sub-name values containing =; names ending in a dash and GOMAXPROCS values containing 9; FlattenedFields must equal Fields with tuples expanded; sub-name keys one of which is a prefix of another (/s, /size), two-digit values with a leading zero. One case in four asks for the residue after the first expression already (only projections are then checked against the reference); one in five first offers the parser the invalid .config@(x y). Unit manykeys: one projection hands out 1000 ... 70001 (thorough 200000) distinct Keys, then 150-odd early, late and scattered tuples are projected again and must give the identical Key. Distinct = distinct case JSON."),
     assumptions=["reference tuple reflects the documented meaning of .config/.fullname groups with exclusions"],
     units=[
-        R("rapid", "A", "./c08", "TestC08Rapid", (2500, 8), (60000, 16)),
+        R("rapid", "A", "./c08", "TestC08Rapid", (3000, 16), (60000, 16)),
         E("manykeys", "A", "./c08", "TestC08ManyKeys", 1, 1),
     ],
 )
